@@ -114,9 +114,9 @@ def checkRs (exp : List GItem) (rs : List String) (i : Nat := 0) : Option String
       match parseItems body with
       | none => some "unparsable-observation"
       | some items =>
-        if hasLoop items then some ("endless-iteration-cfg" ++ toString i)
+        if hasLoop items then some ("endless-iteration cfg" ++ toString i)
         else if items = exp then checkRs exp rest (i + 1)
-        else some ("records-differ-cfg" ++ toString i)
+        else some ("records-differ cfg" ++ toString i)
 
 def tagsOf (fq : Bool) (recs : List GRec) (multiline : Bool) : String :=
   let q := recs.any fun g => match g.qual with
@@ -184,7 +184,7 @@ def verdict (toks : List String) (out : String) : String :=
         match (stripPrefix "F:" f).bind parseHex with
         | none => "bad-op observation"
         | some fobs =>
-          if fobs ≠ fbytes then "reject writer-bytes-expected-" ++ toHex fbytes else
+          if fobs ≠ fbytes then "reject writer-bytes expected-" ++ toHex fbytes else
           let multiline := match wrap with
             | some w => recs.any (fun g => g.seq.length > w)
             | none => false
@@ -199,9 +199,9 @@ def verdict (toks : List String) (out : String) : String :=
               | [] => "ok" ++ tags ++ " sniffer"
               | k :: r1 :: r2 :: more =>
                 let want := if fq then "fq" else "fa"
-                if k ≠ "K:" ++ want ++ "," ++ want ++ "," ++ want then "reject sniffer-kind-cfg" ++ toString i ++ "-" ++ k
+                if k ≠ "K:" ++ want ++ "," ++ want ++ "," ++ want then "reject sniffer-kind cfg" ++ toString i ++ " " ++ k
                 else match checkRs exp [r1, r2] with
-                  | some r => "reject sniffer-" ++ r ++ "-cfg" ++ toString i
+                  | some r => "reject sniffer-" ++ r ++ " group" ++ toString i
                   | none => goFx (i + 1) more
               | _ => "reject observation-shape"
             goFx 0 rest
@@ -257,7 +257,7 @@ def verdict (toks : List String) (out : String) : String :=
         match (stripPrefix "F:" f).bind parseHex with
         | none => "bad-op observation"
         | some fobs =>
-          if fobs ≠ fbytes then "reject writer-bytes-expected-" ++ toHex fbytes else
+          if fobs ≠ fbytes then "reject writer-bytes expected-" ++ toHex fbytes else
           if rest.length ≠ offs.length then "reject observation-count" else
           let rec goCut (drift : Bool) (part : Bool) : List Nat → List String → String
             | c :: cs, t :: ts =>
@@ -265,12 +265,12 @@ def verdict (toks : List String) (out : String) : String :=
               | [ks, body] =>
                 match ks.toNat?, parseItems body with
                 | some k, some tail =>
-                  if k > recs.length then "reject cut" ++ toString c ++ "-more-records-than-written" else
+                  if k > recs.length then "reject more-records-than-written cut" ++ toString c else
                   let items := expected (recs.take k) ++ tail
-                  if hasLoop items then "reject cut" ++ toString c ++ "-endless-iteration" else
+                  if hasLoop items then "reject endless-iteration cut" ++ toString c else
                   let good := items.filterMap fun | .r g true => some g | _ => none
                   if fq && !isSublist good recs then
-                    "reject cut" ++ toString c ++ "-checked-record-not-original"
+                    "reject checked-record-not-original cut" ++ toString c
                   else
                     let d := model fq (fbytes.take c) ≠ items
                     goCut (drift || d) (part || tail.any (fun | .r _ _ => true | _ => false)) cs ts
